@@ -155,6 +155,17 @@ class ServerWorld:
 
         class SimBptk(BPTK_Py.bptk):
             def run_step(self, settings=None, flat=False):
+                if getattr(self, "_verif_depth", 0) > 0 and world.cfg.get("replays_are_internal"):
+                    # a step re-run from inside run_step (the lazy replay of a restored session): not a step of any request
+                    world.log.add("replayed_step", world.current_req())
+                    return super().run_step(settings=settings, flat=flat)
+                self._verif_depth = getattr(self, "_verif_depth", 0) + 1
+                try:
+                    return self._verif_run_step(settings=settings, flat=flat)
+                finally:
+                    self._verif_depth -= 1
+
+            def _verif_run_step(self, settings=None, flat=False):
                 tag = world.current_req()
                 n = world.step_calls.get(tag, 0)
                 world.step_calls[tag] = n + 1
